@@ -60,6 +60,10 @@ def jobs(tier, seed):
     js.append(Job("converr", "vlib.stage1:h_stage1",
                   {"shapes": [F([S(2)], bg=1)], "opts": {"dry_run": "sym", "converr": True, "out_dom": {"*": [0, 3]}},
                    "checks": base}, reach=REACH, min_paths=20, cost=100, validate=150))
+    js.append(Job("exc-classes", "vlib.stage1:h_stage1",
+                  {"shapes": [F([S(2, tags=["wip"]), S(1)])],
+                   "opts": {"out_dom": {"*": [0, 3]}, "exc_kinds": ["RuntimeError", "NotImplementedError", "KeyError", "StopIteration"]},
+                   "checks": base}, reach=REACH, min_paths=20, cost=100, validate=150))
     js.append(Job("async", "vlib.stage1:h_stage1",
                   {"shapes": [F([S(2)], bg=1)], "opts": {"async_steps": True, "out_dom": {"*": [0, 8]}},
                    "checks": base}, reach=REACH, min_paths=20, cost=100, validate=150))
